@@ -173,6 +173,85 @@ fn memory_pressure_group(rep: &Report, idx: usize, seed: u64) -> Option<String> 
     res.err()
 }
 
+/// Input faults: one read() of the `-i` input fails once (EIO, EAGAIN, ENOMEM, ESTALE,
+/// EINTR) while the chunker holds a partial chunk. The property does not demand that such a
+/// run succeeds; it demands that a run which *reports success* wrote the same bytes as every
+/// other run — a transient fault must not move a chunk boundary silently.
+fn input_fault_group(rep: &Report, idx: usize, seed: u64) -> Option<String> {
+    use crate::refimpl::chunker::{Algo, Cfg};
+    let mut rng = Rng::new(seed).fork(0x12f0 + idx as u64);
+    let dir = scn::case_dir("C12", 80_000 + idx);
+    let res = (|| -> Result<(), String> {
+        let cfg = match idx % 3 {
+            0 => Cfg::fixed(rng.urange(30_000, 70_000)),
+            1 => Cfg { algo: Algo::RollSum, window: 64, min: 16_384, max: 262_144, bits: 15 },
+            _ => Cfg { algo: Algo::BuzHash, window: 16, min: 8_192, max: 131_072, bits: 14 },
+        };
+        let comp = *rng.pick(&[crate::gen::Comp::None, crate::gen::Comp::Brotli(1), crate::gen::Comp::Zstd(1)]);
+        // larger than the chunker's refill (1 MiB) and tokio's file buffer (2 MiB): several data reads
+        let src_len = rng.urange(2_300_000, 4_400_000);
+        let class = *rng.pick(&[crate::gen::SrcClass::Random, crate::gen::SrcClass::MixedEntropy, crate::gen::SrcClass::LowEntropy]);
+        let source = crate::gen::gen_source(&mut rng, class, src_len);
+        let mut spec = scn::CompressSpec::new(cfg, comp, 64);
+        spec.buffered = *rng.pick(&[None, Some(1), Some(4)]);
+        let (mut run, out_path) = scn::compress_run(&dir, "ref", &source, &spec);
+        let src_path = dir.join("ref.src");
+        run.watch = vec![src_path.clone()];
+        run.log_reads = true;
+        let o = proc::run(&run);
+        rep.eval();
+        if !o.exit.ok() {
+            rep.inconclusive("input-fault reference run did not succeed");
+            return Ok(());
+        }
+        let reference = std::fs::read(&out_path).map_err(|e| e.to_string())?;
+        let reads = o.shim.iter().filter(|r| r.widx == 0 && (r.kind == proc::K_READ || r.kind == proc::K_PREAD) && r.ret > 0).count();
+        if reads < 2 {
+            rep.inconclusive("input was delivered in a single read");
+            return Ok(());
+        }
+        rep.count("input_fault.data_reads_of_reference_runs", reads as u64);
+        let errnos = [libc::EIO, libc::EAGAIN, libc::ENOMEM, libc::ESTALE, libc::EINTR];
+        let mut ks: Vec<usize> = (1..reads.min(5)).collect();
+        ks.push(reads); // the read that would report end of file
+        for (j, k) in ks.into_iter().enumerate() {
+            let e = errnos[(idx + j) % errnos.len()];
+            spec.force = true;
+            let (mut run, out_path) = scn::compress_run(&dir, "ref", &source, &spec);
+            let _ = std::fs::remove_file(&out_path);
+            run.watch = vec![src_path.clone()];
+            run.read_fault = Some(format!("0,{},{}", k, e));
+            let o = proc::run(&run);
+            rep.eval();
+            if o.exit == Exit::Timeout {
+                rep.inconclusive("watchdog (input fault)");
+                continue;
+            }
+            if !o.shim.iter().any(|r| r.kind == proc::K_FAULT) {
+                rep.count("input_fault.not_reached", 1);
+                continue;
+            }
+            rep.count("input_fault.fired", 1);
+            if !o.exit.ok() {
+                rep.count("input_fault.runs_that_failed_loudly", 1);
+                continue;
+            }
+            rep.count("input_fault.runs_that_succeeded", 1);
+            let bytes = std::fs::read(&out_path).map_err(|e| e.to_string())?;
+            if bytes != reference {
+                return Err(format!(
+                    "read #{} of the input failed once with errno {}: compress exited 0 but the archive differs from the fault-free run (lengths {} vs {}, first difference at byte {:?}; {})",
+                    k, e, bytes.len(), reference.len(), first_diff(&reference, &bytes), spec.describe()
+                ));
+            }
+        }
+        rep.nontrivial(format!("inputfault:{}:{}", spec.describe(), idx));
+        Ok(())
+    })();
+    scn::cleanup(&dir, res.is_err());
+    res.err()
+}
+
 pub fn run(tier: Tier, seed: u64) -> i32 {
     let rep = Report::new("C12", "exploration", tier, seed);
     let groups = tier.pick(56, 420);
@@ -209,6 +288,18 @@ pub fn run(tier: Tier, seed: u64) -> i32 {
             if let Some(why) = r {
                 rep.violation("c12/memory-pressure/archives differ", json!({"why": why}), json!({"engine": "memory", "idx": i, "seed": seed}));
             }
+        }
+    }
+    {
+        let nf = tier.pick(6, 60);
+        let out = par_map(nf, crate::util::ncpu(), |i| (i, input_fault_group(&rep, i, seed)));
+        for (i, r) in out {
+            if let Some(why) = r {
+                rep.violation("c12/input-fault/archives differ", json!({"why": why}), json!({"engine": "inputfault", "idx": i, "seed": seed}));
+            }
+        }
+        if rep.counter("input_fault.fired") == 0 {
+            rep.broken("no input read fault fired".into());
         }
     }
     for (i, case, r) in results {
@@ -250,7 +341,7 @@ pub fn run(tier: Tier, seed: u64) -> i32 {
         rep.broken("no group observed two different completion orders: injection ineffective".into());
     }
     rep.finish(
-        "each group = one (source, options, writer) compressed once without and R times with perturbation (buffered-chunks in {1,2,3,8,64,default}, TOKIO_WORKER_THREADS in {1,2,16,default}, file vs stdin pipe in random pieces, seeded delays in hash/compress workers, on temp-file writes and input reads); all archives of a group must be byte-identical; non-trivial = groups in which the hook log showed >= 2 distinct worker completion orders",
+        "each group = one (source, options, writer) compressed once without and R times with perturbation (buffered-chunks in {1,2,3,8,64,default}, TOKIO_WORKER_THREADS in {1,2,16,default}, file vs stdin pipe in random pieces, seeded delays in hash/compress workers, on temp-file writes and input reads); all archives of a group must be byte-identical; input-fault groups: one read() of a multi-MiB -i input fails once (EIO/EAGAIN/ENOMEM/ESTALE/EINTR) at each of the first data reads and at the EOF read - the run may fail, exit 0 must mean the fault-free bytes; non-trivial = groups in which the hook log showed >= 2 distinct worker completion orders",
         &[
             "schedules are sampled by delay injection at the real hand-off points, not enumerated",
             "CLI file and CLI stdin input are the same writer with different input delivery and must agree; the library writer is compared with itself",
@@ -265,6 +356,20 @@ pub fn replay(v: &Value) -> i32 {
     if r["engine"] == "memory" {
         let rep = Report::new("C12", "exploration", Tier::Quick, r["seed"].as_u64().unwrap_or(1));
         return match memory_pressure_group(&rep, r["idx"].as_u64().unwrap_or(0) as usize, r["seed"].as_u64().unwrap_or(1)) {
+            Some(why) => {
+                println!("replay: VIOLATED: {}", why);
+                println!("VIOLATION property=C12 replay=(replayed)");
+                1
+            }
+            None => {
+                println!("replay: property held on this case");
+                0
+            }
+        };
+    }
+    if r["engine"] == "inputfault" {
+        let rep = Report::new("C12", "exploration", Tier::Quick, r["seed"].as_u64().unwrap_or(1));
+        return match input_fault_group(&rep, r["idx"].as_u64().unwrap_or(0) as usize, r["seed"].as_u64().unwrap_or(1)) {
             Some(why) => {
                 println!("replay: VIOLATED: {}", why);
                 println!("VIOLATION property=C12 replay=(replayed)");
